@@ -86,17 +86,17 @@ theorem truncation_prefix (m : Message) (lim : Nat) (w : Bytes) (h : m.toWire li
 
 /-- "returns a parseable message": full statement — for every well-formed `m`, `m.toWire lim true = .ok w →
 ∃ m', parseMessage cfg w = .ok m'`.  Proved for the class of messages for which C03's render-then-parse theorem is
-proved (`MsgOkE`: absolute names, with or without OPT, no TSIG, no padding, not an update): the truncated rendering parses, without trailing
+proved (`MsgOkT`: absolute names, with or without OPT, with or without TSIG, no padding, not an update): the truncated rendering parses, without trailing
 junk, to the kept prefix of `m` (up to the ASCII case of compressed names), with TC as stated in
 `truncation_prefix`.  What is missing: the same cases as for `C03.parse_render_partial`. -/
-theorem result_parses_partial (m : Message) (lim : Nat) (w : Bytes) (hok : MsgOkE m) (h : m.toWire lim true = .ok w)
-    (cfg : PCfg) (horg : cfg.origin = none) (hnorr : cfg.oneRRPerRRset = false) :
+theorem result_parses_partial (m : Message) (lim : Nat) (w : Bytes) (hok : MsgOkT m) (h : m.toWire lim true = .ok w)
+    (cfg : PCfg) (horg : cfg.origin = none) (hnorr : cfg.oneRRPerRRset = false) (hkey : cfg.hasKey = true) :
     ∃ m', parseMessage cfg w = .ok m' ∧
-      (m'.sim m ∨ ∃ k, k < m.items.length ∧ m'.sim (m.cut k (m.tcAt k))) := by
+      (m'.simT m ∨ ∃ k, k < m.items.length ∧ m'.simT (m.cut k (m.tcAt k))) := by
   rcases toWire_truncation m lim w h with h1 | ⟨k, hk, h2⟩
-  · obtain ⟨m', hp, hs⟩ := parse_toWire_opt m lim w hok h1 cfg horg hnorr
+  · obtain ⟨m', hp, hs⟩ := parse_toWire_full m lim w hok h1 cfg horg hnorr hkey
     exact ⟨m', hp, Or.inl hs⟩
-  · obtain ⟨m', hp, hs⟩ := parse_toWire_opt (m.cut k (m.tcAt k)) lim w (hok.cut k _) h2 cfg horg hnorr
+  · obtain ⟨m', hp, hs⟩ := parse_toWire_full (m.cut k (m.tcAt k)) lim w (hok.cut k _) h2 cfg horg hnorr hkey
     exact ⟨m', hp, Or.inr ⟨k, hk, hs⟩⟩
 
 /-- "when padding is requested the final length, TSIG included, is a multiple of the block size" — proved for
